@@ -19,7 +19,8 @@ RULE = ("cases = (declared graph, root, topological, checkCycles) listings, (dec
         "without version) queries, and integer graphs given to topologicalSort/stronglyConnectedComponents; graphs "
         "are generated from shapes (chain, diamond, shared sub-tree, random DAG, cyclic, name-cyclic across versions) "
         "with optional edges, explicit versions of declared and undeclared versions, two versions of one product, "
-        "names without a current version, unresolvable names, -j and unsetupRequired lines, plus an exhaustive family "
+        "names without a current version, unresolvable names, -j and unsetupRequired lines, products declared without a "
+        "table file or with a table file missing on disk, plus an exhaustive family "
         "(4 products, every subset of 3 candidate lines per table: 4096 graphs; all of them in the thorough tier, a "
         "seed-dependent slice of 30 otherwise); a listing is "
         "non-trivial when the root has at least one dependency, a uses query when it has at least one user, "
@@ -30,7 +31,7 @@ TRUSTED = ["utils.stronglyConnectedComponents (Tarjan) is modelled by its specif
            "one stack and one flavor; the full VRO is C03's model",
            "CPython list.sort stability, dict insertion order, str comparison by code point"]
 ASSUMPTIONS = ["table files contain only setupRequired/setupOptional/unsetupRequired lines (no type/flavor blocks), "
-               "no default (implicit) product is configured",
+               "no default (implicit) product is configured; no stack has both unsetup lines and a missing table file",
                "versions match [\\w.+-]+ and no version is literally 'None'; product names contain no ':'",
                "dependency chains are shorter than the Python recursion limit"]
 
@@ -55,6 +56,7 @@ def gen_graph(rng, wide=False):
     p_unres = 0.12 if rng.random() < 0.5 else 0.0
     p_uns = 0.15 if rng.random() < 0.12 else 0.0
     p_j = rng.choice([0.15, 0.3]) if rng.random() < 0.3 else 0.0
+    p_missing = 0.25 if (p_uns == 0.0 and rng.random() < 0.1) else 0.0
     p_expl = rng.choice([0.0, 0.3, 0.6])
     versions = {}
     for m in names:
@@ -89,6 +91,10 @@ def gen_graph(rng, wide=False):
             if deps and rng.random() < p_uns:
                 deps.insert(rng.randint(1, len(deps)), {"k": "unreq", "n": rng.choice(names), "v": None, "j": rng.random() < 0.3})
             prods.append({"name": m, "version": v, "deps": deps, "tags": ["current"] if v == cur else []})
+            if not deps and rng.random() < 0.3:
+                prods[-1]["notable"] = True        # declared without a table file
+            elif p_missing and rng.random() < p_missing:
+                prods[-1]["missing"] = True        # declared with a table file that is not there
     if rng.random() < 0.3 and len(names) >= 3:
         # a product reached through a -j line and through an ordinary path, in both orders, the -j target having
         # dependencies of its own: it must be opened by the ordinary visit whichever comes first
@@ -108,6 +114,12 @@ def gen_graph(rng, wide=False):
             if not any(d["k"] in ("req", "opt") for d in byname[x]["deps"]):
                 byname[x]["deps"].append({"k": "req", "n": z, "v": None, "j": False})
             prods.append(top)
+            for q in (byname[x], byname[y]):
+                if q["deps"]:
+                    q.pop("notable", None)
+            if p_uns:
+                for q in prods:
+                    q.pop("missing", None)
             shape += "+j"
     rng.shuffle(prods)
     return {"products": prods, "shape": shape}
@@ -180,7 +192,8 @@ class Resolved:
                 t = (d["n"], v, True) if v is not None and (d["n"], v) in self.decl else (d["n"], d["v"], False)
                 out.append((t, bool(d.get("j")), d["k"] == "opt"))
             self.succ[node] = out
-            self.has_unsetup[node] = any(d["k"] in ("unreq", "unopt") for d in p["deps"])
+            # tables the property says nothing about: with an unsetup line, or declared but missing on disk
+            self.has_unsetup[node] = any(d["k"] in ("unreq", "unopt") for d in p["deps"]) or bool(p.get("missing"))
 
     def closure(self, root, ignore_j=False):
         """(listed nodes, expanded nodes): listed = targets of edges of expanded nodes; a node is expanded when it is
@@ -453,6 +466,10 @@ def evaluate(ctx, graphs, ncli=2, corpus=False):
         if g.get("shape", "").endswith("+j"):
             ctx.hist("shape+j")
         ctx.hist("products=%d" % len(g["products"]))
+        if any(p.get("notable") for p in g["products"]):
+            ctx.hist("graph:has_product_without_table")
+        if any(p.get("missing") for p in g["products"]):
+            ctx.hist("graph:has_missing_table_file")
         for ri, r in enumerate(roots):
             for mi, mode in enumerate(MODES):
                 out, mo = io_["lists"][ri][mi], ml[ri][mi]
